@@ -41,6 +41,21 @@ ASSUMPTIONS = [
     'line per statement and clause in equal, falling and rising columns, and in falling columns with every line ending in a // comment (layouts lines, stairs, climb, stairs-remarks); layout in general is C06\'s '
     'and C07\'s subject',
     'every translation runs on a copy-on-write snapshot (fork) of one pristine host per worker, verified consistent before use',
+    'C05 only (not in the run of C06) -- names of local variables.  Family "shadow": a local variable declared by create / select (from '
+    'instances, related by, with and without where clause, one / any / many) / for each -- never by an assignment -- may be spelled like '
+    'a constant of the host (TEN, Red; thorough also like an enumerator, a constant group, an enumeration): the innermost declaration '
+    'wins, every read of the name is a read of the variable and is regenerated as such; every program of the statement family is run '
+    'once per such variable with the variable renamed (one home and one name, rotating; thorough all homes and names), and every declaration form is '
+    'combined with every kind of read (right-hand side, operand, unary operand, attribute handle, operation handle, navigation start, '
+    'parameter value, condition, where clause, return value, assigned again), also next to the qualified constant of that name.  '
+    'A name first introduced by an assignment stays excluded (the un-namespaced constant read above)',
+    'C05 only -- family "rescope": a variable declared in a nested block goes out of scope with the block; the same name may be declared '
+    'again after the block or in a sibling block with another type (handle of A / of B, set of A / of B, integer, string) and is then used '
+    'in a way that depends on the second type (attribute of that class only, operation, navigation, selected of a where clause into it, '
+    'for each over it, arithmetic); every ordered pair of types (equal types too) x every use of the second type x eleven placements '
+    '(after an if / else / elif / while / for each block, sibling clauses of one if, two containers in a row, after an inner block inside '
+    'an outer one, declared two blocks deep); quick: one pair of declaration forms per pair of types (rotating through all forms), one '
+    'home per program; thorough: every pair of forms, every home, three more placements',
 ]
 
 REQUIRED_FEATURES = [
@@ -106,11 +121,368 @@ def layout_tasks(tasks):
     return out
 
 
+# ---------------------------------------------------------------------------
+# Round 11: two families about the NAMES of local variables (C05 only; the run of C06 does not hold them).
+#
+# shadow   a local variable -- declared by create / select (every form) / for each, never by an assignment -- that is
+#          spelled like a constant of the host (K::TEN, L::TEN, L::Red).  The innermost declaration wins: every read of
+#          the name is a read of the variable.  (a) every program of the statement family, in one home, with one of its
+#          variables of that kind renamed -- once per such variable that is read through a plain variable access, once
+#          per name; (b) the product of every declaration form with every kind of read.
+# rescope  a name declared inside a nested block and, after that block has ended or in a sibling block, declared AGAIN
+#          with another type (handle of another class, set instead of instance, scalar of another type), followed by a
+#          use that depends on the second type.  Product of block shapes x pairs of types x uses of the second type.
+# ---------------------------------------------------------------------------
+NAME_FAMILIES = ('shadow', 'rescope')
+# constants' names (quick); thorough adds names of enumerators, of a constant group and of an enumeration
+SHADOW_NAMES = {'quick': ['TEN', 'Red'], 'thorough': ['TEN', 'Red', 'Green', 'Off', 'K', 'Color']}
+
+
+def rename_variable(x, old, new):
+    '''The program (JSON shape) with the local variable *old* spelled *new* wherever a variable is named: variable
+    accesses, the variables of create / delete / relate / select / for each.  Attribute, parameter, class, function
+    names, phrases and literals are left alone.'''
+    def e(v):
+        if v is None:
+            return None
+        k = v[0]
+        if k == 'var':
+            return ['var', new if v[1] == old else v[1]]
+        if k in ('field',):
+            return ['field', e(v[1]), v[2]]
+        if k == 'index':
+            return ['index', e(v[1]), e(v[2])]
+        if k == 'grp':
+            return ['grp', e(v[1])]
+        if k == 'un':
+            return ['un', v[1], e(v[2])]
+        if k == 'bin':
+            return ['bin', v[1], e(v[2]), e(v[3])]
+        if k == 'fcall':
+            return ['fcall', v[1], [[p, e(a)] for p, a in v[2]]]
+        if k == 'icall':
+            return ['icall', e(v[1]), v[2], [[p, e(a)] for p, a in v[3]]]
+        if k == 'ncall':
+            return ['ncall', v[1], v[2], [[p, e(a)] for p, a in v[3]]]
+        if k in ('int', 'real', 'str', 'bool', 'self', 'selected', 'param', 'enum'):
+            return H.tolist(v)
+        raise ValueError(v)
+
+    def n(name):
+        return new if name == old else name
+
+    def blk(b):
+        return None if b is None else [s(y) for y in b]
+
+    def s(st):
+        k = st[0]
+        if k == 'assign':
+            return ['assign', e(st[1]), e(st[2]), st[3]]
+        if k in ('break', 'continue', 'stop', 'empty'):
+            return list(st)
+        if k == 'return':
+            return ['return', e(st[1])]
+        if k == 'create':
+            return ['create', n(st[1]), st[2]]
+        if k == 'delete':
+            return ['delete', n(st[1])]
+        if k in ('relate', 'unrelate'):
+            return [k, n(st[1]), n(st[2]), st[3], H.tolist(st[4]), n(st[5])]
+        if k == 'selfrom':
+            return ['selfrom', st[1], n(st[2]), st[3], e(st[4]), st[5]]
+        if k == 'selrel':
+            return ['selrel', st[1], n(st[2]), e(st[3]), H.tolist(st[4]), e(st[5])]
+        if k == 'if':
+            return ['if', e(st[1]), blk(st[2]), [[e(c), blk(b)] for c, b in st[3]], blk(st[4]), list(st[5])]
+        if k == 'while':
+            return ['while', e(st[1]), blk(st[2]), st[3]]
+        if k == 'foreach':
+            return ['foreach', n(st[1]), n(st[2]), blk(st[3]), st[4]]
+        if k == 'call':
+            return ['call', st[1], e(st[2])]
+        if k == 'callassign':
+            return ['callassign', st[1], e(st[2]), e(st[3])]
+        raise ValueError(st)
+    return [s(st) for st in x]
+
+
+def reads_variable(x, name):
+    '''Whether the program holds a plain variable access of that name.'''
+    if isinstance(x, (list, tuple)):
+        if len(x) == 2 and x[0] == 'var' and x[1] == name:
+            return True
+        return any(reads_variable(y, name) for y in x)
+    return False
+
+
+def shadow_renamings(tasks, tier):
+    '''(a): every program of the statement family (prelude included), in one of the homes it is well-formed in (rotating),
+    with each of its variables that are declared by create / select / for each only and read through a variable access
+    renamed to each name of SHADOW_NAMES.'''
+    homes_of, order = {}, []
+    for t in tasks:
+        if t['family'] != 'statements':
+            continue
+        key = repr(t['stmts'])
+        if key not in homes_of:
+            homes_of[key] = []
+            order.append(t)
+        homes_of[key].append(t['home'])
+    out = []
+    for n, t in enumerate(order):
+        homes = homes_of[repr(t['stmts'])]
+        for home in (homes if tier == 'thorough' else [homes[n % len(homes)]]):
+            full, _, an = H.complete(t['stmts'], home)
+            full = H.tolist(full)
+            by_name = {}
+            for v in an.vars:
+                by_name.setdefault(v.name, []).append(v)
+            for name in sorted(by_name):
+                if any(v.first is not None or v.dims for v in by_name[name]) or not reads_variable(full, name):
+                    continue
+                names = [x for x in SHADOW_NAMES[tier] if x not in by_name]
+                if tier == 'quick':                     # one name per (program, variable), the names taking turns
+                    names = names[len(out) % len(names):][:1]
+                for new in names:
+                    out.append(dict(family='shadow', stmts=rename_variable(full, name, new), home=home, entry=t['entry'],
+                                    part='renamed'))
+    return out
+
+
+def shadow_product(tier):
+    '''(b): declaration forms x kinds of read, per name.  -> core programs (the prelude declares a, b, aset, bset, i).'''
+    V, I, F, BIN, UN, ASSIGN, T, SEL, STR = H.V, H.I, H.F, H.BIN, H.UN, H.ASSIGN, H.T, H.SEL, H.STR
+    W0 = BIN('==', F(SEL, 'Num'), I(1))
+    progs = []
+    for N in SHADOW_NAMES[tier]:
+        qualified = [q for q in H.qualified_names() if q[2] == N]              # K::TEN, L::TEN / Color::Red, Mode::Red, L::Red
+        inst_decls = [('create', N, 'A'), ('selfrom', 'any', N, 'A', None, True), ('selfrom', 'any', N, 'A', W0, False),
+                      ('selrel', 'one', N, V('b'), [('A', 'R1', None)], None),
+                      ('selrel', 'any', N, V('bset'), [('A', 'R1', T('is owned by'))], None),
+                      ('selrel', 'one', N, V('a'), [('A', 'R2', T('next'))], W0),
+                      ('selrel', 'any', N, V('bset'), [('A', 'R1', None)], BIN('>', F(SEL, 'Num'), V('i')))]
+        set_decls = [('selfrom', 'many', N, 'A', None, True), ('selfrom', 'many', N, 'A', W0, True),
+                     ('selrel', 'many', N, V('bset'), [('A', 'R1', None)], None),
+                     ('selrel', 'many', N, V('a'), [('B', 'R1', None), ('A', 'R1', T('is owned by'))], W0)]
+        n = V(N)
+        inst_uses = [
+            [ASSIGN('x', n)], [ASSIGN('x', n, True)], [ASSIGN('x', F(N, 'Num'))], [ASSIGN('x', UN('not_empty', n))],
+            [ASSIGN('x', UN('empty', n))], [ASSIGN('x', UN('cardinality', n))], [ASSIGN('x', BIN('==', n, V('a')))],
+            [ASSIGN('x', BIN('!=', V('a'), n))], [ASSIGN('x', UN('not', UN('empty', n)))],
+            [('call', None, ('fcall', 'h', [('x', F(N, 'Num'))]))],
+            [('call', None, ('icall', n, 'op', [('q', UN('cardinality', n)), ('r', UN('empty', n))]))],
+            [ASSIGN('x', ('icall', n, 'op', [('r', UN('not_empty', n)), ('q', I(1))]))],
+            [('return', UN('cardinality', n))],
+            [('if', UN('not_empty', n), [ASSIGN(F(N, 'Num'), I(1)), ASSIGN('x', n)], [], [ASSIGN('y', n)], [False])],
+            [('while', UN('empty', n), [ASSIGN('x', n), ('break',)], False)],
+            [('selrel', 'many', 'ms', n, [('B', 'R1', None)], None)],
+            [('selrel', 'one', 'm', n, [('A', 'R2', T('next'))], BIN('==', F(SEL, 'Num'), F(N, 'Num')))],
+            [('selfrom', 'any', 'm', 'A', BIN('==', F(SEL, 'Num'), F(N, 'Num')), True)],
+            [('selfrom', 'many', 'ms', 'A', BIN('and', F(SEL, 'Flag'), UN('not_empty', n)), True)],
+            [ASSIGN(N, V('a')), ASSIGN('x', n)], [ASSIGN(F(N, 'Name'), STR), ASSIGN('x', F(N, 'Name'))],
+            [ASSIGN('x', n), ASSIGN('y', F('x', 'Num')), ('delete', N)], [('relate', N, 'b', 'R1', None, None), ASSIGN('x', n)],
+        ] + [[ASSIGN('x', n), ASSIGN('y', q), ASSIGN('z', BIN('==', n, V('x')))] for q in qualified]
+        set_uses = [
+            [ASSIGN('x', n)], [ASSIGN('x', UN('cardinality', n))], [ASSIGN('x', UN('empty', n))], [ASSIGN('x', UN('not_empty', n))],
+            [ASSIGN('x', BIN('|', n, V('aset')))], [ASSIGN('x', BIN('&', V('aset'), n))], [ASSIGN('x', BIN('==', n, V('aset')))],
+            [('foreach', 'k', N, [ASSIGN('x', F('k', 'Num'))], False), ASSIGN('y', n)],
+            [('selrel', 'many', 'ms', n, [('B', 'R1', None)], None)],
+            [('return', UN('cardinality', n))],
+            [('if', UN('not_empty', n), [ASSIGN('x', n)], [(UN('empty', n), [ASSIGN('y', n)])], None, [False, False])],
+            [('call', None, ('fcall', 'h', [('x', UN('cardinality', n))]))],
+            [ASSIGN(N, BIN('^', n, V('aset'))), ASSIGN('x', n)],
+        ] + [[ASSIGN('x', n), ASSIGN('y', q)] for q in qualified]
+        for d in inst_decls:
+            for u in inst_uses:
+                progs.append([d] + u)
+        for d in set_decls:
+            for u in set_uses:
+                progs.append([d] + u)
+        # the variable of a for each statement: read inside the loop and after it
+        for u in inst_uses:
+            progs.append([('foreach', N, 'aset', u, False)])
+            progs.append([('foreach', N, 'aset', [], True)] + u)
+    return progs
+
+
+RESCOPE_TYPES = ('instA', 'instB', 'setA', 'setB', 'integer', 'string')
+
+
+def rescope_menu():
+    '''type -> (declarations of n with that type, uses of n that depend on the type).'''
+    V, I, F, BIN, UN, ASSIGN, T, SEL, STR = H.V, H.I, H.F, H.BIN, H.UN, H.ASSIGN, H.T, H.SEL, H.STR
+    n = V('n')
+    decls = {
+        'instA': [('create', 'n', 'A'), ('selfrom', 'any', 'n', 'A', None, True), ('selrel', 'one', 'n', V('b'), [('A', 'R1', None)], None),
+                  ASSIGN('n', V('a')), ('selfrom', 'any', 'n', 'A', BIN('and', F(SEL, 'Flag'), BIN('==', F(SEL, 'Name'), STR)), True),
+                  ('selrel', 'any', 'n', V('bset'), [('A', 'R1', None)], F(SEL, 'Flag'))],
+        'instB': [('selfrom', 'any', 'n', 'B', None, True), ('create', 'n', 'B'), ASSIGN('n', V('b')),
+                  ('selrel', 'any', 'n', V('a'), [('B', 'R1', None)], BIN('==', F(SEL, 'A_Id'), F('a', 'Id'))),
+                  ('selfrom', 'any', 'n', 'B', BIN('==', F(SEL, 'A_Id'), F('a', 'Id')), True)],
+        'setA': [('selfrom', 'many', 'n', 'A', None, True), ASSIGN('n', V('aset')),
+                 ('selfrom', 'many', 'n', 'A', F(SEL, 'Flag'), True), ('selrel', 'many', 'n', V('bset'), [('A', 'R1', None)], None)],
+        'setB': [('selrel', 'many', 'n', V('a'), [('B', 'R1', None)], None), ('selfrom', 'many', 'n', 'B', None, True),
+                 ('selrel', 'many', 'n', V('a'), [('B', 'R1', None)], BIN('==', F(SEL, 'A_Id'), F('a', 'Id'))), ASSIGN('n', V('bset'))],
+        'integer': [ASSIGN('n', I(1)), ASSIGN('n', F('a', 'Num'))],
+        'string': [ASSIGN('n', STR), ASSIGN('n', F('a', 'Name'))],
+    }
+    uses = {
+        'instA': [[ASSIGN('x', F('n', 'Flag'))], [ASSIGN(F('n', 'Name'), STR)],
+                  [('call', None, ('icall', n, 'op', [('q', I(1)), ('r', F('n', 'Flag'))]))],
+                  [('selrel', 'many', 'ms', n, [('B', 'R1', None)], BIN('==', F(SEL, 'A_Id'), F('n', 'Id')))],
+                  [('selrel', 'one', 'm', n, [('A', 'R2', T('next'))], None), ASSIGN('x', F('m', 'Rate'))]],
+        'instB': [[ASSIGN('x', F('n', 'A_Id'))], [('selrel', 'one', 'm', n, [('A', 'R1', None)], None), ASSIGN('x', F('m', 'Flag'))],
+                  [('relate', 'a', 'n', 'R1', None, None), ASSIGN('x', BIN('==', F('n', 'A_Id'), F('a', 'Id')))]],
+        'setA': [[('foreach', 'k', 'n', [ASSIGN('x', F('k', 'Flag'))], False)], [ASSIGN('x', BIN('|', n, V('aset')))],
+                 [('selrel', 'many', 'ms', n, [('B', 'R1', None)], None), ('foreach', 'k', 'ms', [ASSIGN('x', F('k', 'A_Id'))], False)]],
+        'setB': [[('foreach', 'k', 'n', [ASSIGN('x', F('k', 'A_Id'))], False)], [ASSIGN('x', BIN('&', n, V('bset')))],
+                 [('selrel', 'many', 'ms', n, [('A', 'R1', None)], F(SEL, 'Flag'))]],
+        'integer': [[ASSIGN('x', BIN('%', n, I(2)))], [ASSIGN(F('a', 'Num'), n)]],
+        'string': [[ASSIGN('x', BIN('+', n, STR))], [ASSIGN(F('a', 'Name'), n)]],
+    }
+    return decls, uses
+
+
+def rescope_shapes(d1, d2, u2, tier):
+    '''Every placement of a first declaration d1 (in a nested block) and of a second declaration d2 followed by the uses u2
+    (after that block, or in a sibling block).'''
+    V, I, BIN, ASSIGN = H.V, H.I, H.BIN, H.ASSIGN
+    c0, c1, c2 = V('t'), BIN('<', V('i'), I(3)), BIN('==', V('i'), I(7))
+    X = ASSIGN('x0', I(1))
+    after = [d2] + u2
+    out = [
+        [('if', c0, [d1], [], None, [False])] + after,                                      # after an if block
+        [('if', c0, [X], [], [d1], [False])] + after,                                       # after an else block
+        [('if', c0, [X], [(c2, [d1])], None, [False, False])] + after,                      # after an elif block
+        [('while', c1, [d1, ('break',)], False)] + after,                                   # after a while block
+        [('foreach', 'k0', 'aset', [d1], False)] + after,                                   # after a for each block
+        [('if', c0, [d1], [], after, [False])],                                             # sibling: if / else
+        [('if', c0, [d1], [(c2, after)], None, [False, False])],                            # sibling: if / elif
+        [('if', c0, [X], [(c2, [d1]), (c1, after)], [X], [False, False, False])],           # sibling: elif / elif, else follows
+        [('if', c0, [d1], [], None, [False]), ('while', c1, after + [('break',)], False)],  # two containers in a row
+        [('if', c0, [('if', c2, [d1], [], None, [False])] + after, [], None, [False])],     # after the inner block, inside the outer
+        [('while', c1, [('foreach', 'k0', 'aset', [d1], False), ('break',)], False)] + after,   # declared two blocks deep
+    ]
+    if tier == 'thorough':
+        out += [
+            [('foreach', 'k0', 'aset', [('if', c0, [d1], [], after, [False])], False)],
+            [('if', c0, [d1], [], None, [False]), ('if', c2, [X], [], after, [False])],
+            [('while', c1, [d1, ('if', c0, [('break',)], [], None, [False])], False)] + after + [('if', c0, after, [], None, [False])],
+        ]
+    return out
+
+
+def rescope_programs(tier):
+    '''Quick: per ordered pair of types (equal types included: the control) one pair of declaration forms -- the forms
+    rotate so that every form of the menu is used as first and as second declaration -- every use of the second type,
+    every shape.  Thorough: every pair of declaration forms.'''
+    decls, uses = rescope_menu()
+    progs = []
+    k = 0
+    for t1 in RESCOPE_TYPES:
+        for t2 in RESCOPE_TYPES:
+            if tier == 'thorough':
+                pairs = [(d1, d2) for d1 in decls[t1] for d2 in decls[t2]]
+            else:
+                pairs = [(decls[t1][k % len(decls[t1])], decls[t2][(k // len(RESCOPE_TYPES)) % len(decls[t2])])]
+                k += 1
+            for d1, d2 in pairs:
+                for u2 in uses[t2]:
+                    progs += rescope_shapes(d1, d2, u2, tier)
+    return progs
+
+
+def name_tasks(tasks, tier, seed=0):
+    '''The tasks of the families shadow and rescope (programs that are well-formed in the home and not among *tasks*).'''
+    seen = set((repr(t['stmts']), t['home']) for t in tasks)
+    out, bounds = [], {}
+    for t in shadow_renamings(tasks, tier):
+        key = (repr(t['stmts']), t['home'])
+        if key not in seen and H.complete(t['stmts'], t['home']) is not None:
+            seen.add(key)
+            out.append(t)
+    bounds['shadow'] = dict(names=SHADOW_NAMES[tier], renamed_programs_of_the_statement_family=len(out))
+    for fam, progs in (('shadow', shadow_product(tier)), ('rescope', rescope_programs(tier))):
+        kept = 0
+        for idx, core_stmts in enumerate(progs):
+            homes = H.HOMES if tier == 'thorough' else [H.HOMES[idx % len(H.HOMES)]]
+            for home in homes:
+                stmts = H.tolist(H.home_params(core_stmts, home))
+                key = (repr(stmts), home)
+                if key in seen or H.complete(stmts, home) is None:
+                    continue
+                seen.add(key)
+                kept += 1
+                out.append(dict(family=fam, stmts=stmts, home=home, entry='model' if (idx + seed) % 2 else 'action', part='product'))
+        bounds.setdefault(fam, {}).update(product_candidates=len(progs), product_well_formed=kept)
+    decls, uses = rescope_menu()
+    bounds['rescope'].update(types=list(RESCOPE_TYPES), declaration_forms=dict((k, len(v)) for k, v in decls.items()),
+                             uses=dict((k, len(v)) for k, v in uses.items()),
+                             shapes=len(rescope_shapes(decls['instA'][0], decls['instB'][0], uses['instB'][0], tier)),
+                             homes='all' if tier == 'thorough' else 'one per program (rotating)')
+    return out, bounds
+
+
+class NamedCtx(object):
+    '''A context whose violation signatures name the family of the task (the signatures of tree mismatches are made of
+    the statement kind and the field only).'''
+    def __init__(self, ctx, family):
+        self._ctx = ctx
+        self._family = family
+
+    def violation(self, sig, *args, **kw):
+        parts = sig.split(':')
+        if self._family not in parts:
+            sig = ':'.join(parts[:1] + [self._family] + parts[1:])
+        return self._ctx.violation(sig, *args, **kw)
+
+    def __getattr__(self, name):
+        return getattr(self._ctx, name)
+
+
+def named_first(sub, host, task):
+    return H.c05_first(NamedCtx(sub, task['family']), host, task)
+
+
+def named_second(sub, host, task, gen):
+    return H.c05_second(NamedCtx(sub, task['family']), host, task, gen)
+
+
+def named_run(ctx, task):
+    '''H.c05_run for the families of NAME_FAMILIES: same two translations and oracles, signatures naming the family.'''
+    r = H.complete(task['stmts'], task['home'])
+    if r is None:
+        raise ValueError('task is not well-formed: %r' % (task,))
+    an = r[2]
+    ctx.count('runs')
+    gen = H.isolated(ctx, named_first, task)
+    ok = False
+    if isinstance(gen, tuple):
+        H.hang_or_crash(ctx, 'c05', task, gen)
+    elif gen is not None:
+        res = H.isolated(ctx, named_second, task, gen)
+        if isinstance(res, tuple):
+            H.hang_or_crash(ctx, 'c05', task, res)
+        ok = res is True
+    H.record_coverage(ctx, task, an, ok)
+    ctx.count('%s:%s' % (task['family'], task.get('part', 'product')))
+    # what the family is about: a read of the variable spelled like a constant / a second declaration of the name
+    if task['family'] == 'shadow':
+        ctx.count('shadow:variable-reads', sum(1 for name in SHADOW_NAMES['thorough'] if reads_variable(task['stmts'], name)))
+    else:
+        ctx.count('rescope:declarations', sum(1 for v in an.vars if v.name == 'n'))
+        if len(set(v.t for v in an.vars if v.name == 'n')) > 1:
+            ctx.count('rescope:retyped')
+
+
 def task_fn(ctx, task):
     if H.stopped():
         ctx.cap('stopped early after the first violations (VERIF_STOP_EARLY)')
         return
-    H.c05_run(ctx, task)
+    if task['family'] in NAME_FAMILIES:
+        named_run(ctx, task)
+    else:
+        H.c05_run(ctx, task)
     H.stop_if_violated(ctx)
 
 
@@ -124,7 +496,9 @@ def run_engine(ctx, fn):
         bounds['layouts'] = dict(programs_with_elif_clauses_under_other_layouts=len(extra), layouts=list(ELIF_LAYOUTS),
                                  what='every program of the nesting family holding an if with elif clauses, in one home (rotating), '
                                       'under each of these layouts; all other programs are printed on one line')
-        tasks = tasks + extra
+        named, name_bounds = name_tasks(tasks, ctx.tier, ctx.seed)
+        bounds['names_of_variables'] = name_bounds
+        tasks = tasks + extra + named
     ctx.notes['bounds'] = bounds
     ctx.notes['tasks'] = len(tasks)
     # interleave so that every chunk mixes cheap and expensive programs
@@ -149,6 +523,18 @@ def guards(ctx, tasks):
         ctx.require(ctx.n('layout:' + lay) >= 100 or ctx.caps_hit, 'layout %s hardly used (%d)' % (lay, ctx.n('layout:' + lay)))
     for fam in ('statements', 'expressions', 'sequences', 'nesting'):
         ctx.require(ctx.n('family:' + fam) >= 500, 'family %s too small (%d)' % (fam, ctx.n('family:' + fam)))
+    if ctx.prop.lower() == 'c05':
+        ctx.require(ctx.n('shadow:renamed') >= 300 and ctx.n('shadow:product') >= 200 or ctx.caps_hit,
+                    'family shadow too small (%d renamed programs, %d of the product)' % (ctx.n('shadow:renamed'), ctx.n('shadow:product')))
+        ctx.require(ctx.n('shadow:variable-reads') >= ctx.n('family:shadow') > 0 or ctx.caps_hit,
+                    'family shadow: programs without a read of the variable spelled like a constant')
+        ctx.require(ctx.n('family:rescope') >= 500 and ctx.n('rescope:retyped') >= 400 and
+                    ctx.n('rescope:declarations') >= 2 * ctx.n('family:rescope') or ctx.caps_hit,
+                    'family rescope too small (%d programs, %d declaring the name with two types, %d declarations)' %
+                    (ctx.n('family:rescope'), ctx.n('rescope:retyped'), ctx.n('rescope:declarations')))
+        for f in ('declares:CreateObjectNode', 'declares:SelectFromNode', 'declares:SelectFromWhereNode', 'declares:SelectRelatedNode',
+                  'declares:SelectRelatedWhereNode', 'declares:ForEachNode'):
+            ctx.require(core.h64(f) in feats, 'no variable was ever declared by %s' % f)
 
 
 def run(ctx):
@@ -163,7 +549,10 @@ def run(ctx):
 def replay(ctx, case):
     task = dict(family=case['family'], stmts=case['stmts'], home=case['home'], entry=case.get('entry', 'action'),
                 layout=case.get('layout', 'default'))
-    H.c05_run(ctx, task)
+    if task['family'] in NAME_FAMILIES:
+        named_run(ctx, task)
+    else:
+        H.c05_run(ctx, task)
 
 
 def sizes(ctx, prefix):
@@ -181,6 +570,8 @@ def coverage(ctx):
         distinct_programs=ctx.nd('programs'),
         per_home=dict((h, ctx.nd('home:' + h)) for h in H.HOMES),
         per_family=dict((k.split(':')[1], v) for k, v in ctx.counts.items() if k.startswith('family:')),
+        names_of_variables=dict((k, ctx.n(k)) for k in ('shadow:renamed', 'shadow:product', 'shadow:variable-reads', 'rescope:product',
+                                                        'rescope:declarations', 'rescope:retyped')),
         entry_points=dict(prebuild_action=ctx.n('entry:action'), prebuild_model=ctx.n('entry:model')),
         features_exercised=ctx.nd('features'),
         max_statements_per_program=sizes(ctx, 'statements'), max_block_depth=sizes(ctx, 'depth'),
